@@ -103,6 +103,14 @@ def gen_spec(rng):
     nsfc = int(rng.integers(1, 4))
     nlay = int(rng.integers(1, 3))
     nz = int(rng.integers(1, 4))
+    if rng.random() < 0.15:
+        # more than 999 points along one axis: the thousands digit is carried
+        # by the two GRID characters of every label ('@' = 0, 'A' = 1, ...),
+        # the index record holds the remainder
+        if rng.random() < 0.5:
+            nx, ny = 1000 + int(rng.integers(2, 9)), int(rng.integers(3, 6))
+        else:
+            nx, ny = int(rng.integers(3, 6)), 1000 + int(rng.integers(2, 9))
     extra = None
     if nz >= 2 and rng.random() < 0.3:
         # a variable reported only from some upper level on (not at the
@@ -165,6 +173,9 @@ def encode(spec):
         exp['vars'][ex['key']] = np.zeros((spec['nt'], nl, ny, nx), 'f4')
         exp['orig'][ex['key']] = np.zeros((spec['nt'], nl, ny, nx), 'f4')
         exp['nexp'][ex['key']] = np.zeros((spec['nt'], nl), 'i4')
+    grid = '99'
+    if nx > 999 or ny > 999:
+        grid = chr(64 + nx // 1000) + chr(64 + ny // 1000)
     for t, when in enumerate(exp['times']):
         ymdhf = when.strftime('%y%m%d%H') + ' 0'
         recs = []
@@ -177,7 +188,7 @@ def encode(spec):
                 f = field(spec, t, vi + (0 if li == 0 else 5), li, (ny, nx))
                 cvar, prec, nexp, var1, ksum, mm = pakout(f)
                 levinfo += '%-4s%3d ' % (key, ksum)
-                recs.append(label(ymdhf, li, '99', key, nexp, prec, var1) +
+                recs.append(label(ymdhf, li, grid, key, nexp, prec, var1) +
                             cvar.tobytes())
                 dec = pakinp(cvar, F(float('%14.7E' % var1)), nexp)
                 if li == 0:
@@ -195,9 +206,9 @@ def encode(spec):
                ''.join('%7.2f' % v for v in (
                    90.0, 0.0, spec['dlat'], spec['dlon'], 0.0, 0.0, 0.0,
                    1.0, 1.0, spec['lat0'], spec['lon0'], 0.0)) +
-               '%3d%3d%3d%2d%4d' % (nx, ny, nlev, 1, lenh))
+               '%3d%3d%3d%2d%4d' % (nx % 1000, ny % 1000, nlev, 1, lenh))
         assert len(hdr) == 108, len(hdr)
-        index = label(ymdhf, 0, '99', 'INDX', 0, 0.0, 0.0) + \
+        index = label(ymdhf, 0, grid, 'INDX', 0, 0.0, 0.0) + \
             (hdr + levinfo).encode('ascii')
         if len(index) > recl:
             raise ValueError('grid too small for the index record')
@@ -215,6 +226,8 @@ def decode(buf):
         raise ValueError('first record is not an index record')
     h = idx[50:]
     nx, ny, nz = int(h[93:96]), int(h[96:99]), int(h[99:102])
+    nx += max(0, (ord(idx[12:13]) - 64) * 1000)
+    ny += max(0, (ord(idx[13:14]) - 64) * 1000)
     lenh = int(h[104:108])
     recl = 50 + nx * ny
     if len(buf) % recl:
